@@ -280,6 +280,10 @@ func genCall(r *hlib.Rng, cols []genCol, kind string, depth int, malformed bool)
 		l := append([]interface{}{op}, goArgs...)
 		return enode{l, "(EList " + hlib.List(append([]string{"(EStr " + hlib.Str(op) + ")"}, coqArgs...)) + ")", "raw[" + desc + "]"}
 	}
+	if arity >= 3 {
+		// Expr must not alter the operand slice of its caller: build an expression from the same slice first
+		_ = qframe.Expr(op, goArgs...)
+	}
 	e := qframe.Expr(op, goArgs...)
 	return enode{e, "(EBuilt (expr_call " + hlib.Str(op) + " " + hlib.List(coqArgs) + "))", desc}
 }
